@@ -2,6 +2,8 @@
 //!
 //! Read the `windows` module for reference.
 
+#[cfg(naijascript_verif)]
+use crate::sys::verif_shim::fake_libc as libc;
 use std::ffi::c_int;
 use std::io::{self, Write};
 use std::ptr::{self, NonNull, null_mut};
